@@ -378,6 +378,13 @@ def family_cases(ctx):
                            "  5: optional map<string, %s> e\n  6: optional map<string, %s> f\n  7: optional map<%s, i32> g\n}\n"
                            % (tname, gname, tname, gname, tname, gname, key))
             add("nativename-%s-%s" % (gname, kind), {"prog.thrift": body})
+    # enum items that share a value and carry labels: whatever is accepted has to build (one switch case per label)
+    add("enum-dupvalue-label-clash", {"prog.thrift": 'enum Shape { CIRCLE = 1, SQUARE = 2, ROUND = 1 (go.label = "CIRCLE") }\n'}, expect="any")
+    add("enum-dupvalue-label-clash-2", {"prog.thrift": 'enum Shape { CIRCLE = 1 (go.label = "round"), SQUARE = 2, ROUND = 2 (go.label = "round") }\n'}, expect="any")
+    add("enum-dupvalue-label-distinct", {"prog.thrift": 'enum E { A = 1, B = 1 (go.label = "BEE"), C = 2 }\nstruct S { 1: optional E e = E.B }\n'})
+    add("enum-label-clash", {"prog.thrift": 'enum E { A = 1, B = 2 (go.label = "A") }\n'}, expect="any")
+    add("enum-label-same-as-own-name", {"prog.thrift": 'enum E { A = 1 (go.label = "A"), B = 2 (go.label = "b") }\n'})
+    add("field-label-clash", {"prog.thrift": 'struct S { 1: optional i32 a (go.label = "x"), 2: optional i32 b (go.label = "x") }\n'}, expect="any")
     # service inheritance across files where each file includes only its parent's file
     add("svc-chain-4-files", {"prog.thrift": 'include "./mid.thrift"\nservice Top extends mid.Mid { void top(1: i32 a) }\n',
                               "mid.thrift": 'include "./sub/low.thrift"\nstruct MidArg { 1: optional i32 x }\nservice Mid extends low.Low { MidArg mid(1: MidArg a) }\n',
